@@ -438,6 +438,59 @@ func BaseStubs() map[string]Stub {
 		return ex.NewError(ex.sprintf(constStrArg(ex, c.Args[0], "fmt.Errorf"), ex.sliceElems(c.Args[1])), "errorf")
 	}
 	st["errors.New"] = func(ex *Exec, c *CallInfo) Value { return ex.NewError(c.Args[0].(*smt.Term), "new") }
+	st["sort.SearchStrings"] = func(ex *Exec, c *CallInfo) Value {
+		// binary search exactly as sort.Search does: smallest i with a[i] >= x
+		el := ex.sliceElems(c.Args[0])
+		x := c.Args[1].(*smt.Term)
+		lo, hi := 0, len(el)
+		for lo < hi {
+			mid := int(uint(lo+hi) >> 1)
+			if !ex.Branch(ex.C.Not(ex.C.StrLt(el[mid].(*smt.Term), x))) { // !(a[mid] >= x)
+				lo = mid + 1
+			} else {
+				hi = mid
+			}
+		}
+		return ex.C.IntC(int64(lo))
+	}
+	st["sort.Strings"] = func(ex *Exec, c *CallInfo) Value {
+		s := c.Args[0].(Slice)
+		for i := 1; i < s.Len; i++ {
+			for j := i; j > 0; j-- {
+				a, b := s.Arr.E[s.Off+j], s.Arr.E[s.Off+j-1]
+				av, bv := a.Load(ex).(*smt.Term), b.Load(ex).(*smt.Term)
+				if !ex.Branch(ex.C.StrLt(av, bv)) {
+					break
+				}
+				a.Store(ex, bv)
+				b.Store(ex, av)
+			}
+		}
+		return nil
+	}
+	st["strings.Contains"] = func(ex *Exec, c *CallInfo) Value { return ex.C.Contains(c.Args[0].(*smt.Term), c.Args[1].(*smt.Term)) }
+	st["strings.HasPrefix"] = func(ex *Exec, c *CallInfo) Value { return ex.C.PrefixOf(c.Args[1].(*smt.Term), c.Args[0].(*smt.Term)) }
+	st["strings.HasSuffix"] = func(ex *Exec, c *CallInfo) Value { return ex.C.SuffixOf(c.Args[1].(*smt.Term), c.Args[0].(*smt.Term)) }
+	st["strings.Index"] = func(ex *Exec, c *CallInfo) Value {
+		return ex.C.IndexOf(c.Args[0].(*smt.Term), c.Args[1].(*smt.Term), ex.C.IntC(0))
+	}
+	st["strings.TrimPrefix"] = func(ex *Exec, c *CallInfo) Value {
+		s, p := c.Args[0].(*smt.Term), c.Args[1].(*smt.Term)
+		if ex.Branch(ex.C.PrefixOf(p, s)) {
+			return ex.C.Substr(s, ex.C.Len(p), ex.C.Sub(ex.C.Len(s), ex.C.Len(p)))
+		}
+		return s
+	}
+	st["strings.TrimSuffix"] = func(ex *Exec, c *CallInfo) Value {
+		s, p := c.Args[0].(*smt.Term), c.Args[1].(*smt.Term)
+		if ex.Branch(ex.C.SuffixOf(p, s)) {
+			return ex.C.Substr(s, ex.C.IntC(0), ex.C.Sub(ex.C.Len(s), ex.C.Len(p)))
+		}
+		return s
+	}
+	st["strings.EqualFold"] = func(ex *Exec, c *CallInfo) Value {
+		return ex.C.Eq(ex.CaseMap(c.Args[0].(*smt.Term), false, ex.strBound()), ex.CaseMap(c.Args[1].(*smt.Term), false, ex.strBound()))
+	}
 	st["sort.Slice"] = func(ex *Exec, c *CallInfo) Value {
 		iv := c.Args[0].(Iface)
 		s := iv.V.(Slice)
